@@ -2,7 +2,7 @@
 
 use super::common::*;
 use crate::stats::{Failure, Stats, Verdict};
-use crate::sut::{self, IssueSpec, KbArgs};
+use crate::sut::{self, IssueSpec, KbArgs, Out};
 use crate::tree::{mark, select, MNode};
 use serde::{Deserialize, Serialize};
 use serde_json::{Map, Value};
@@ -18,6 +18,10 @@ pub struct C01Case {
     /// the checked presentation must be what a fresh holder would produce
     #[serde(default)]
     pub earlier: Vec<sut::EarlierCall>,
+    /// an issuance the SAME issuer instance served before (another subject: other claims, holder
+    /// key, decoy flag, format); the checked round trip must be what a fresh issuer would give
+    #[serde(default)]
+    pub prelude: Option<IssueSpec>,
 }
 
 pub fn selection_kind(tree: &MNode, selected: usize) -> &'static str {
@@ -68,7 +72,19 @@ pub fn check(case: &C01Case, st: &mut Stats) -> Verdict {
         }
     }
 
-    let sd_jwt = must_ok("issue_sd_jwt", sut::issue(spec))?;
+    let sd_jwt = match &case.prelude {
+        None => must_ok("issue_sd_jwt", sut::issue(spec))?,
+        Some(pre) => {
+            st.label("issuer_served_an_earlier_subject");
+            st.label(if pre.holder != spec.holder { "issuer_served_an_earlier_subject:other_holder_key" } else { "issuer_served_an_earlier_subject:same_holder_key" });
+            st.sub(1);
+            let mut issuer = sut::new_issuer(spec.alg, crate::keys::KeyId::Primary);
+            if let Out::Panic(p) = sut::issue_with(&mut issuer, &IssueSpec { alg: spec.alg, ..pre.clone() }) {
+                return Err(Failure::new(panic_sig("issue_sd_jwt(earlier subject)", &p), format!("issue_sd_jwt panicked on the earlier call: {}", p)));
+            }
+            must_ok("issue_sd_jwt", sut::issue_with(&mut issuer, spec))?
+        }
+    };
     if !case.earlier.is_empty() {
         st.label("holder_served_earlier_presentations");
         st.sub(case.earlier.len() as u64);
